@@ -10,6 +10,8 @@ import (
 	"math"
 	"net/http"
 	"net/http/httptest"
+	"os"
+	"path/filepath"
 	"strconv"
 	"strings"
 	"sync"
@@ -181,10 +183,22 @@ func c12Parse(line string) (c12Parsed, bool) {
 }
 
 func c12Do(c c12Parsed) (*httptest.ResponseRecorder, []byte) {
-	srv := newServer(map[string][]byte{c.name + ".pmtiles": c.archive}, 8)
 	s2, _ := pmtiles.NewServerWithBucket(pmtiles.VerifNewMemoryBucket(map[string][]byte{c.name + ".pmtiles": c.archive}), "", discardLogger, 8, "http://public")
+	if lineHash(c.name+" "+c.path+" "+c.method)%3 == 0 && filepath.IsLocal(c.name) && !strings.ContainsAny(c.name, "\\\x00") {
+		// one case in three is served the way `pmtiles serve <directory>` does it: NewServer on a local directory
+		// (bucket URL construction, file backend, its version tags), the archive a file below it
+		dir, err := os.MkdirTemp(Scratch(), "c12srv")
+		if err == nil {
+			defer os.RemoveAll(dir)
+			fp := filepath.Join(dir, filepath.FromSlash(c.name)+".pmtiles")
+			if os.MkdirAll(filepath.Dir(fp), 0o755) == nil && os.WriteFile(fp, c.archive, 0o644) == nil {
+				if fs, err := pmtiles.NewServer("", dir, discardLogger, 8, "http://public"); err == nil {
+					s2 = fs
+				}
+			}
+		}
+	}
 	s2.Start()
-	_ = srv
 	// the body a plain GET returns (needed to present its ETag)
 	req0 := httptest.NewRequest("GET", "http://h/", nil)
 	req0.URL.Path = c.path
